@@ -27,13 +27,18 @@ HDR_PURE = ('glm/glm.hpp', 'glm/gtc/quaternion.hpp', 'glm/ext/matrix_integer.hpp
 PURE = Cfg('pure', defines=('GLM_FORCE_PURE',), headers=HDR_PURE)
 ISAS = {
     'sse2': ('-msse2',), 'sse3': ('-msse3',), 'ssse3': ('-mssse3',), 'sse41': ('-msse4.1',), 'sse42': ('-msse4.2',),
-    'avx': ('-mavx',), 'avx2': ('-mavx2', '-mfma'),
+    'avx': ('-mavx',), 'avx2': ('-mavx2', '-mfma'), 'avx2nofma': ('-mavx2',),
 }
+# the baseline compiler is g++: GLM selects some SIMD arms by compiler (e.g. compute_fma<4, double> uses _mm256_fmadd_pd unless the compiler is clang). The '@gcc' levels make
+# clang read the GLM headers the way g++ does (rules/c15.py: GCC_VIEW), so that those arms are instantiated and compared as well.
+from rules.c15 import GCC_VIEW
 
 
 def simd_cfg(isa, wxyz=False):
     d = ('GLM_FORCE_INTRINSICS',) + (('GLM_FORCE_QUAT_DATA_WXYZ',) if wxyz else ())
-    return Cfg('simd_' + isa + ('_wxyz' if wxyz else ''), defines=d, flags=ISAS[isa], headers=HDR)
+    gcc = isa.endswith('@gcc')
+    return Cfg('simd_' + isa.replace('@', '_') + ('_wxyz' if wxyz else ''), defines=d, flags=ISAS[isa.split('@')[0]], headers=HDR,
+               pre_text=('#include <immintrin.h>\n' + GCC_VIEW) if gcc else '')
 
 
 PURE_WXYZ = Cfg('pure_wxyz', defines=('GLM_FORCE_PURE', 'GLM_FORCE_QUAT_DATA_WXYZ'), headers=HDR_PURE)
@@ -409,6 +414,15 @@ def cases(tier):
                 break
             if 'Q' in op[3] or op[4] == 'Q':
                 cs.append(pair_case(op, 'float', 'highp', isa, wxyz=True))
+    # the g++ view of the headers (compiler-keyed arms), with and without FMA at the AVX2 level
+    for isa in (('avx2@gcc', 'avx2nofma@gcc', 'sse2@gcc') if tier == 'quick' else ('avx2@gcc', 'avx2nofma@gcc', 'avx@gcc', 'sse41@gcc', 'sse2@gcc', 'avx2nofma')):
+        for op in OPS:
+            types = op[5]
+            tl = [TNAME[types[0]]] if '>' in types else [TNAME[c] for c in types]
+            for T in tl:
+                if tier == 'quick' and isa == 'sse2@gcc' and T == 'double':
+                    continue
+                cs.append(pair_case(op, T, 'highp', isa))
     cs += canaries()
     return cs
 
